@@ -40,6 +40,7 @@ type tlsServer struct {
 
 type tlsWorld struct {
 	withCA, noCA *tlsServer
+	peerEdge     *tlsServer // its peers are named like the repository's signer certificates
 	otherCA      *x509.Certificate
 	otherCAKey   *ecdsa.PrivateKey
 	sysCA        *x509.Certificate
@@ -90,8 +91,12 @@ func freePort() int {
 	return l.Addr().(*net.TCPAddr).Port
 }
 
-func (w *tlsWorld) startServer(t *testing.T, rc *RunCtx, caCert []byte) *tlsServer {
+func (w *tlsWorld) startServer(t *testing.T, rc *RunCtx, caCert []byte, nameFmt ...string) *tlsServer {
 	s := NewSched(rc, SchedCfg{})
+	nf := ""
+	if len(nameFmt) > 0 {
+		nf = nameFmt[0]
+	}
 	perms := map[string][]*checker.Permissions{
 		"client-test01": {{Path: "Wallet 1", Operations: []string{"All"}}, {Path: "Wallet 3", Operations: []string{"All"}}},
 		"client-test02": {{Path: "Wallet 2", Operations: []string{"All"}}},
@@ -99,7 +104,7 @@ func (w *tlsWorld) startServer(t *testing.T, rc *RunCtx, caCert []byte) *tlsServ
 	}
 	w1 := WalletSpec{Name: "Wallet 1", Kind: "nd", Accounts: []string{"Account 0", "Account 1"}}
 	w2 := WalletSpec{Name: "Wallet 2", Kind: "nd", Accounts: []string{"Account 0", "Account 1"}}
-	c := NewCluster(t, rc, s, ClusterCfg{IDs: []uint64{1, 2, 3}, Perms: perms, Specs: []WalletSpec{w1, w2, {Name: "Wallet 3", Kind: "distributed"}}})
+	c := NewCluster(t, rc, s, ClusterCfg{IDs: []uint64{1, 2, 3}, Perms: perms, NameFmt: nf, Specs: []WalletSpec{w1, w2, {Name: "Wallet 3", Kind: "distributed"}}})
 	// Peer names as in the repository's test certificates.
 	n := c.Nodes[0]
 	port := freePort()
@@ -132,6 +137,7 @@ func getTLSWorld(t *testing.T, rc *RunCtx) *tlsWorld {
 		setupRC := &RunCtx{Property: "C19", Ch: NewSeedChoice(1), Stats: NewStats()}
 		w.withCA = w.startServer(t, setupRC, resources.CACrt)
 		w.noCA = w.startServer(t, setupRC, nil)
+		w.peerEdge = w.startServer(t, setupRC, resources.CACrt, "signer-test%02d")
 		tlsW = w
 	})
 	return tlsW
@@ -183,6 +189,26 @@ func (w *tlsWorld) dial(srv *tlsServer, cred string) (*grpc.ClientConn, error) {
 		forged := mkLeaf("client-test01", nil, nil, false)
 		genuine := pair(resources.ClientTest02Crt, resources.ClientTest02Key)
 		forged.Certificate = append(forged.Certificate, genuine.Certificate[0])
+		cfg.Certificates = []tls.Certificate{forged}
+	case "valid-peer-signer-test03":
+		cfg.Certificates = []tls.Certificate{pair(resources.SignerTest03Crt, resources.SignerTest03Key)}
+	case "self-signed-peer-name":
+		cfg.Certificates = []tls.Certificate{mkLeaf("signer-test02", nil, nil, false)}
+	case "other-authority-peer-name":
+		cfg.Certificates = []tls.Certificate{mkLeaf("signer-test02", w.otherCA, w.otherCAKey, false)}
+	case "valid-client-test01-followed-by-public-certificate-of-peer", "valid-unpermitted-client-followed-by-public-certificate-of-peer":
+		// A genuine CLIENT certificate; a peer's PUBLIC certificate (no key is proven for it) rides along in the chain.
+		c := pair(resources.ClientTest01Crt, resources.ClientTest01Key)
+		if cred == "valid-unpermitted-client-followed-by-public-certificate-of-peer" {
+			c = pair(resources.ClientTest03Crt, resources.ClientTest03Key)
+		}
+		peer := pair(resources.SignerTest02Crt, resources.SignerTest02Key)
+		c.Certificate = append(c.Certificate, peer.Certificate[0])
+		cfg.Certificates = []tls.Certificate{c}
+	case "self-signed-peer-name-followed-by-public-certificate-of-peer":
+		forged := mkLeaf("signer-test02", nil, nil, false)
+		peer := pair(resources.SignerTest02Crt, resources.SignerTest02Key)
+		forged.Certificate = append(forged.Certificate, peer.Certificate[0])
 		cfg.Certificates = []tls.Certificate{forged}
 	case "valid-client-test02-followed-by-forged-client-test01", "valid-unpermitted-client-followed-by-forged-client-test01":
 		// A genuine certificate with a self-made extra certificate bearing a permitted name appended to the chain.
@@ -445,7 +471,101 @@ func runTLS(t *testing.T, rc *RunCtx) {
 	}
 }
 
+// runPeerEdge is the TLS-edge layer of C16: key-generation messages sent over real gRPC/TLS to an instance whose
+// peers are named like the repository's signer certificates.  A genuine peer opens a session (control); then a
+// caller with the case's credential sends the case's message.  Only a caller whose VERIFIED leaf certificate names a
+// peer may be honoured, and whatever a non-peer sent, the genuine peer's session is still there afterwards.
+func runPeerEdge(t *testing.T, rc *RunCtx) {
+	InitBLS()
+	w := getTLSWorld(t, rc)
+	creds := []string{"plaintext", "tls-no-client-cert", "valid-client-test01", "valid-unpermitted-client", "self-signed-peer-name", "other-authority-peer-name",
+		"valid-client-test01-followed-by-public-certificate-of-peer", "valid-unpermitted-client-followed-by-public-certificate-of-peer",
+		"self-signed-peer-name-followed-by-public-certificate-of-peer", "valid-peer-signer-test03"}
+	msgs := []string{"prepare", "contribute", "execute", "commit", "abort"}
+	base, _ := strconv.ParseUint(rc.Param("_seed_base", "0"), 10, 64)
+	idx := int(rc.Seed - base)
+	total := len(creds) * len(msgs)
+	if idx >= total {
+		rc.Stats.Inc("matrix_padding_runs", 1)
+		return
+	}
+	if idx == 0 {
+		rc.Stats.Inc("edge_total", int64(total))
+	}
+	rc.Stats.Inc("edge_cases", 1)
+	cred, msg := creds[idx/len(msgs)], msgs[idx%len(msgs)]
+	name := fmt.Sprintf("tls-edge/%s/%s", cred, msg)
+	rc.Stats.Seen("cases", name)
+	rc.Sample = map[string]any{"case": name, "table_size": total}
+	srv := w.peerEdge
+	account := fmt.Sprintf("Wallet 3/edge %d %d", idx, rc.Seed%100000)
+	parts := []*pb.Endpoint{{Id: 1, Name: "signer-test01", Port: 9000}, {Id: 2, Name: "signer-test02", Port: 9001}, {Id: 3, Name: "signer-test03", Port: 9002}}
+	ctx, cancel := context.WithTimeout(context.Background(), 20*time.Second)
+	defer cancel()
+	peer, err := w.dial(srv, "valid-peer-signer-test02")
+	if err != nil {
+		rc.Violate("HARNESS", "dial", err.Error(), 0)
+		return
+	}
+	defer peer.Close()
+	if _, err := pb.NewDKGClient(peer).Prepare(ctx, &pb.PrepareRequest{Account: account, Threshold: 2, Participants: parts}); err != nil {
+		rc.Logf("genuine peer could not open a session: %v", err)
+		rc.Stats.Inc("edge_genuine_peer_refused", 1)
+		return
+	}
+	rc.Stats.Inc("edge_genuine_peer_served", 1)
+	cc, err := w.dial(srv, cred)
+	if err != nil {
+		rc.Violate("HARNESS", "dial", err.Error(), 0)
+		return
+	}
+	defer cc.Close()
+	cl := pb.NewDKGClient(cc)
+	what := ""
+	switch msg {
+	case "prepare":
+		if _, err = cl.Prepare(ctx, &pb.PrepareRequest{Account: account + " other", Threshold: 2, Participants: parts}); err == nil {
+			what = "a session was opened"
+		}
+	case "contribute":
+		sec, vv := maliciousContribution(1, 2)
+		var r *pb.ContributeResponse
+		if r, err = cl.Contribute(ctx, &pb.ContributeRequest{Account: account, Secret: sec, VerificationVector: vv}); err == nil && len(r.GetSecret()) > 0 {
+			what = "a share was handed out"
+		}
+	case "execute":
+		if _, err = cl.Execute(ctx, &pb.ExecuteRequest{Account: account}); err == nil {
+			what = "execute was accepted"
+		}
+	case "commit":
+		if _, err = cl.Commit(ctx, &pb.CommitRequest{Account: account, ConfirmationData: h32("c")}); err == nil {
+			what = "commit was accepted"
+		}
+	case "abort":
+		if _, err = cl.Abort(ctx, &pb.AbortRequest{Account: account}); err == nil {
+			what = "abort was accepted"
+		}
+	}
+	rc.Logf("%s -> %q err=%v", name, what, err)
+	isPeer := cred == "valid-peer-signer-test03"
+	if !isPeer {
+		rc.Stats.Inc("edge_non_peer_calls", 1)
+		if what != "" {
+			rc.Violate("C16", "non-peer-message-honoured", fmt.Sprintf("%s: %s for a caller whose verified certificate does not name a peer", name, what), 0)
+			return
+		}
+		// The genuine peer's session is untouched: it can still abort it.
+		if _, err := pb.NewDKGClient(peer).Abort(ctx, &pb.AbortRequest{Account: account}); err != nil {
+			rc.Violate("C16", "session-disturbed-by-non-peer", fmt.Sprintf("%s: afterwards the genuine peer's session was gone (%v)", name, err), 0)
+		}
+		return
+	}
+	rc.Stats.Inc("edge_peer_calls", 1)
+	_, _ = pb.NewDKGClient(peer).Abort(ctx, &pb.AbortRequest{Account: account})
+}
+
 func init() {
+	noBubble["C16:tls"] = true
 	propRunners["C19"] = runTLS
 	noBubble["C19"] = true
 }
